@@ -54,7 +54,7 @@ def render_step(i, step):
         return "".join(w)
     for k, ch in enumerate(step["inv"].replace("-", "")):
         w.append("def v{1}_{0}(self):\n    return _t('v{1}_{0}')\n".format(name, k))
-    w.append("def p_{0}(x):\n    return _t('p_{0}')\ndef q_{0}(result):\n    return _t('q_{0}')\ndef pp_{0}(self):\n    return _t('pp_{0}')\n".format(name))
+    w.append("def p_{0}(x):\n    return _t('p_{0}')\ndef q_{0}(result):\n    return _t('q_{0}')\ndef pp_{0}(self):\n    return _t('pp_{0}')\ndef p2_{0}(x):\n    return _t('p2_{0}')\n".format(name))
     for k, ch in reversed(list(enumerate(step["inv"].replace("-", "")))):
         w.append("@icontract.invariant(v{1}_{0}, check_on={2})\n".format(name, k, INV[ch]))
     bases = ", ".join(step["bases"]) if step["bases"] else "icontract.DBC"
@@ -62,8 +62,13 @@ def render_step(i, step):
     body = []
     if not step["bases"]:
         body.append("    def __init__(self):\n        self.a = 1\n")
+        # a second contracted method (taken over under ANOTHER name by the 'alias_m2' option of later classes)
+        body.append("    @icontract.require(p2_{0})\n    def m2(self, x=1):\n        return x\n".format(name))
     m = step["m"]
-    if m == "alias":
+    if m == "alias_m2":
+        # the root's OTHER method taken over under the name m, which the bases define with contracts of their own
+        body.append("    m = X0.m2\n")
+    elif m == "alias":
         # pick the root's implementation explicitly (the idiom to resolve a multiple inheritance): the very function object of X0
         body.append("    m = X0.m\n")
     elif m == "helper":
@@ -104,7 +109,7 @@ def cond_names(history):
             names += ["p_g{}".format(i), "q_g{}".format(i)]
         else:
             n = "X{}".format(i)
-            names += ["v{}_{}".format(k, n) for k in range(len(step["inv"].replace("-", "")))] + ["p_" + n, "q_" + n, "pp_" + n]
+            names += ["v{}_{}".format(k, n) for k in range(len(step["inv"].replace("-", "")))] + ["p_" + n, "q_" + n, "pp_" + n, "p2_" + n]
     return names
 
 
@@ -141,7 +146,7 @@ def observe(ns, history, upto, names):
         for attr in ("__invariants__", "__invariants_on_call__", "__invariants_on_setattr__"):
             lists[attr] = [c.condition.__name__ for c in getattr(cls, attr, [])]
             lists[attr + "#own"] = attr in vars(cls)
-        for member in ("m", "p"):
+        for member in ("m", "p", "m2"):
             raw = None
             for k in cls.__mro__:
                 if member in vars(k):
@@ -171,8 +176,8 @@ def observe(ns, history, upto, names):
                 o = None
                 res.append("init:" + type(e).__name__)
             if o is not None:
-                for label, fn in (("m", lambda: o.m(1)), ("p", lambda: o.p), ("set", lambda: setattr(o, "a", 2))):
-                    if label in ("m", "p") and not hasattr(cls, label):
+                for label, fn in (("m", lambda: o.m(1)), ("m2", lambda: o.m2(1)), ("p", lambda: o.p), ("set", lambda: setattr(o, "a", 2))):
+                    if label in ("m", "m2", "p") and not hasattr(cls, label):
                         continue
                     try:
                         fn()
@@ -189,13 +194,13 @@ def steps_for(existing, tier):
     quick = small alphabet, thorough = full alphabet."""
     out = []
     inv_opts = {"quick": ["-", "C", "S", "A"], "tiny": ["-", "C", "S"]}.get(tier, ["-", "C", "S", "A", "CS", "SA"])
-    m_opts = {"quick": ["-", "pre", "post", "prepostsnap", "helper", "alias"], "tiny": ["-", "pre", "prepostsnap"]}.get(
-        tier, ["-", "bare", "pre", "post", "prepostsnap", "helper", "alias"])
+    m_opts = {"quick": ["-", "pre", "post", "prepostsnap", "helper", "alias", "alias_m2"], "tiny": ["-", "pre", "prepostsnap"]}.get(
+        tier, ["-", "bare", "pre", "post", "prepostsnap", "helper", "alias", "alias_m2"])
     base_choices = [[]] + [[c] for c in existing] + [[a, b] for a, b in itertools.permutations(existing, 2)]
     for bases in base_choices:
         for inv in inv_opts:
             for m in m_opts:
-                if m == "alias" and (not bases or bases == ["X0"]):
+                if m in ("alias", "alias_m2") and (not bases or bases == ["X0"]):
                     continue  # taking over X0.m is only interesting below another class that re-defines m
                 for p in (["-", "extset", "extset_root", "post"] if tier == "quick" else (["-"] if tier == "tiny" else PROP_OPTS + ["extset_root"])):
                     if p in ("extset", "extset_root") and (not bases or m != "-" or inv not in ("-", "C")):
@@ -272,7 +277,7 @@ def check_history(history, acc, tier):
     feats = {"depth": len(history), "op": step["op"], "nbases": len(step.get("bases", [])), "inv": step.get("inv"), "m": step.get("m"),
              "p": step.get("p"), "status": status,
              "root_inv": history[0].get("inv"), "bases_inv": "/".join(history[int(b[1:])].get("inv", "-") for b in step.get("bases", []))}
-    if step.get("p") == "extset_root" or step.get("m") == "alias":
+    if step.get("p") == "extset_root" or step.get("m") in ("alias", "alias_m2"):
         feats["reuses_root_member"] = True
         anc, todo = set(), list(step.get("bases", []))
         while todo:
